@@ -48,6 +48,7 @@ def build():
     c_concurrency.install_meta(R)
     c_missing.install(R)
     c_missing.install2(R)
+    c_missing.install3(R)
     c_missing.install_meta(R)
     c_cluster.install(R)
     # bounded stand-ins on the real code that run with the quick tier (labelled bounded in the evidence, never counted as discharged)
